@@ -907,6 +907,7 @@ func ParseBlockStmt(p *ParserZH, blockIndent int) *syntax.StmtBlock {
 func ParseBranchStmt(p *ParserZH) *syntax.BranchStmt {
 	var condExpr syntax.Expression
 	var condBlock *syntax.StmtBlock
+	var otherLine int
 
 	var stmt = new(syntax.BranchStmt)
 
@@ -944,6 +945,7 @@ func ParseBranchStmt(p *ParserZH) *syntax.BranchStmt {
 			if match, tk := p.tryConsume(condKeywords...); match {
 				if tk.Type == TypeCondOtherW {
 					hState = stateOtherBranch
+					otherLine = p.FindLineIdx(tk.StartIdx, 0)
 				} else {
 					hState = stateElseBranch
 				}
@@ -985,6 +987,7 @@ func ParseBranchStmt(p *ParserZH) *syntax.BranchStmt {
 		case stateOtherBranch:
 			stmt.OtherExprs = append(stmt.OtherExprs, condExpr)
 			stmt.OtherBlocks = append(stmt.OtherBlocks, condBlock)
+			stmt.OtherLines = append(stmt.OtherLines, otherLine)
 		case stateElseBranch:
 			stmt.HasElse = true
 			stmt.IfFalseBlock = condBlock
